@@ -71,6 +71,8 @@ type VerifFleet struct {
 	FaultBudget int
 	FaultKinds  int // 0: none; 1: {deadline}; 2: +{applied-but-lost for mutators}; 3: +{1205, dubious 1040, other}
 	FaultsUsed  []string
+	// FaultMutatingOnly: inject faults only into mutating statements (bound for quick tiers)
+	FaultMutatingOnly bool
 	// environment steps between calls
 	Havoc bool
 	// Checkpoint is called after every mutating statement took effect (or failed).
@@ -122,7 +124,7 @@ func (f *VerifFleet) fault(host, stmt string, mutating bool) (error, bool) {
 	if !s.Alive {
 		return ErrVerifRefused, false
 	}
-	if f.FaultBudget <= 0 || f.FaultKinds == 0 {
+	if f.FaultBudget <= 0 || f.FaultKinds == 0 || (f.FaultMutatingOnly && !mutating) {
 		return nil, true
 	}
 	n := 1
